@@ -76,6 +76,15 @@ _ENC = ["enc_value_agrees", "encode_value_agrees", "encode_array_agrees", "encod
 for _p, _l in {"C01": _DEC[:3] + _ENC, "C10": _DEC, "C11": ["from_slice_whole"], "C17": ["write_to_vec_agrees", "encode_agrees", "enc_value_agrees"], "C07": ["to_vec_agrees", "parse_jsonb_agrees"]}.items():
     TIE[_p] = TIE[_p] + [x for x in _l if x not in TIE[_p]]
 
+# phase 4 (tools/rs2lean4.py, Proofs/TranslatedAgreeD*.lean): builders, ObjectEntryIterator, byte-level editors
+_BLD = ["write_entry_agrees", "array_build_into_agrees", "object_build_into_agrees", "array_build_raw", "object_build_raw", "array_push_raw_agrees", "object_push_raw_agrees"]
+_EDT = ["delete_jsonb_by_index_agrees", "delete_by_index_agrees", "concat_jsonb_agrees", "concat_agrees", "delete_jsonb_by_name_agrees", "array_insert_jsonb_agrees",
+        "object_delete_jsonb_agrees", "object_pick_jsonb_agrees", "iterate_object_entries_drain"]
+_SETS = ["array_distinct_jsonb_agrees", "array_intersection_jsonb_agrees", "array_except_jsonb_agrees", "lawful_key_cmp"]
+for _p, _l in {"C06": _EDT + _BLD, "C07": _EDT + _BLD + _SETS, "C13": _SETS + _BLD[:3], "C17": _BLD + ["concat_jsonb_agrees", "array_insert_jsonb_agrees"], "C05": ["iterate_object_entries_drain"],
+               "C11": ["delete_by_index_agrees", "concat_agrees"], "C20": ["delete_jsonb_by_index_agrees", "array_insert_jsonb_agrees"]}.items():
+    TIE[_p] = TIE[_p] + [x for x in _l if x not in TIE[_p]]
+
 # agreement theorem -> the source declarations (keys of the translator's status) it is about
 TIE_SOURCES = {
     "decode_jentry_agrees": ["src/jentry.rs::struct JEntry", "src/jentry.rs::JEntry::decode_jentry"],
@@ -129,6 +138,28 @@ TIE_SOURCES.update({
     "write_to_vec_agrees": _ENCSRC + ["src/ser.rs::Encoder::encode_scalar", "src/ser.rs::Encoder::encode", "src/ser.rs::Encoder::new", "src/value.rs::Value::write_to_vec"],
     "to_vec_agrees": _ENCSRC + ["src/ser.rs::Encoder::encode_scalar", "src/ser.rs::Encoder::encode", "src/ser.rs::Encoder::new", "src/value.rs::Value::write_to_vec", "src/value.rs::Value::to_vec"],
 })
+_BLDSRC = ["src/builder.rs::types Entry, ArrayBuilder, ObjectBuilder", "src/builder.rs::ArrayBuilder::build_into", "src/builder.rs::ObjectBuilder::build_into", "src/builder.rs::write_entry",
+           "src/builder.rs::reserve_jentries", "src/builder.rs::replace_jentry"]
+_PUSH = ["src/builder.rs::ArrayBuilder::new", "src/builder.rs::ArrayBuilder::push_raw", "src/builder.rs::ObjectBuilder::new", "src/builder.rs::ObjectBuilder::push_raw"]
+_AIT = ["src/iterator.rs::struct ArrayIterator", "src/iterator.rs::iterate_array", "src/iterator.rs::ArrayIterator::next"]
+_OIT = ["src/iterator.rs::struct ObjectEntryIterator", "src/iterator.rs::iterate_object_entries", "src/iterator.rs::ObjectEntryIterator::fill_keys", "src/iterator.rs::ObjectEntryIterator::next"]
+TIE_SOURCES.update({
+    "write_entry_agrees": _BLDSRC, "array_build_into_agrees": _BLDSRC, "object_build_into_agrees": _BLDSRC, "array_build_raw": _BLDSRC, "object_build_raw": _BLDSRC,
+    "array_push_raw_agrees": _BLDSRC[:1] + _PUSH[:2], "object_push_raw_agrees": _BLDSRC[:1] + _PUSH[2:],
+    "iterate_object_entries_drain": _OIT,
+    "delete_jsonb_by_index_agrees": _BLDSRC + _PUSH + _AIT + ["src/functions.rs::delete_jsonb_by_index"],
+    "delete_by_index_agrees": _BLDSRC + _PUSH + _AIT + ["src/functions.rs::delete_jsonb_by_index", "src/functions.rs::delete_by_index", "src/functions.rs::is_jsonb"],
+    "concat_jsonb_agrees": _BLDSRC + _PUSH + _AIT + _OIT + ["src/functions.rs::concat_jsonb"],
+    "concat_agrees": _BLDSRC + _PUSH + _AIT + _OIT + ["src/functions.rs::concat_jsonb", "src/functions.rs::concat", "src/functions.rs::is_jsonb"],
+    "delete_jsonb_by_name_agrees": _BLDSRC + _PUSH + _AIT + _OIT + ["src/functions.rs::delete_jsonb_by_name"],
+    "array_insert_jsonb_agrees": _BLDSRC + _PUSH + _AIT + ["src/functions.rs::array_insert_jsonb"],
+    "object_delete_jsonb_agrees": _BLDSRC + _PUSH + _OIT + ["src/functions.rs::object_delete_jsonb"],
+    "object_pick_jsonb_agrees": _BLDSRC + _PUSH + _OIT + ["src/functions.rs::object_pick_jsonb"],
+    "array_distinct_jsonb_agrees": _BLDSRC + _PUSH + _AIT + ["src/functions.rs::array_distinct_jsonb", "src/jentry.rs::derive(Ord) for JEntry"],
+    "array_intersection_jsonb_agrees": _BLDSRC + _PUSH + _AIT + ["src/functions.rs::array_intersection_jsonb", "src/jentry.rs::derive(Ord) for JEntry"],
+    "array_except_jsonb_agrees": _BLDSRC + _PUSH + _AIT + ["src/functions.rs::array_except_jsonb", "src/jentry.rs::derive(Ord) for JEntry"],
+    "lawful_key_cmp": ["src/jentry.rs::derive(Ord) for JEntry"],
+})
 for _k in ("null", "true", "false", "string", "number", "container"):
     TIE_SOURCES["make_%s_jentry_agrees" % _k] = ["src/jentry.rs::struct JEntry", "src/jentry.rs::JEntry::make_%s_jentry" % _k]
     TIE_SOURCES["%s_word_agrees" % _k] = ["src/jentry.rs::struct JEntry", "src/jentry.rs::JEntry::make_%s_jentry" % _k, "src/jentry.rs::JEntry::encoded"]
@@ -145,7 +176,7 @@ EXTRA_THEOREMS = {
 TRUSTED_BASE = [
     "Lean 4.33.0 kernel (thorough tier re-checks the theorem module with leanchecker)",
     "axioms: only propext, Classical.choice, Quot.sound (audited per theorem by #print axioms on every run); no native_decide, no bv_decide, no user axioms, no sorry",
-    "tools/rs2lean.py + rs2lean2.py + rs2lean3.py (translators of 63 functions of /repo/src to Lean: number codec and order, entry words, index arithmetic, byte walkers, iterators, entry patching, escaper, and the recursive Decoder of de.rs and Encoder of ser.rs; regenerated every run) with lean/JsonbModel/RustPrelude*.lean (hand-written meaning of the Rust primitives they emit: integer casts, checked arithmetic, byte conversions, slices, loops as bounded folds, recursion on explicit fuel, BTreeMap as a sorted list, from_utf8 as validUtf8, OrderedFloat); the agreement theorems tie their output to the model",
+    "tools/rs2lean.py + rs2lean2.py + rs2lean3.py + rs2lean4.py (translators of about 90 functions of /repo/src to Lean: number codec and order, entry words, index arithmetic, byte walkers, iterators, entry patching, escaper, the recursive Decoder of de.rs and Encoder of ser.rs, the builders of builder.rs and eleven byte-level editors / set functions of functions.rs; regenerated every run) with lean/JsonbModel/RustPrelude*.lean (hand-written meaning of the Rust primitives they emit: integer casts, checked arithmetic, byte conversions, slices, loops as bounded folds, recursion on explicit fuel, BTreeMap as a sorted list, from_utf8 as validUtf8, OrderedFloat); the agreement theorems tie their output to the model",
     "tools/gen_constants.py (translator constants.rs -> Lean) and the line-protocol glue (lean/JsonbModel/Driver/*.lean, harness/src/wire.rs)",
     "the correspondence check itself: the hand-written implementation model is tied to /repo by sampled differential runs (request stream of this run, see coverage)",
     "modelled, not verified: Rust slice/Vec/integer-cast semantics, BTreeMap ordering, byteorder; the spec layer is my reading of the README and the property text",
